@@ -1441,6 +1441,31 @@ fn check_c15(tier: &str) -> i32 {
         }
         fam_sizes.push(json!({"family": b.name, "instances": n, "bounds": format!("{b:?}")}));
     }
+    // the ends of the priority range (the packing of user priorities into the scheduler's value):
+    // two tasks, of one class or of two, on a worker that can run only one of them
+    {
+        let ext = [i32::MIN, i32::MIN + 1, -1, 0, 1, i32::MAX - 1, i32::MAX];
+        let mut n = 0;
+        for (ia, a) in ext.iter().enumerate() {
+            for b in ext.iter().skip(ia + 1) {
+                for (wc, c1, c2) in [(1u32, 1u64, 1u64), (2, 2, 1), (2, 1, 2)] {
+                    let inst = Instance {
+                        workers: vec![wspec(wc, 0)],
+                        queue: vec![
+                            QGroup { class: vec![Rq::sn(c1, 0)], prio: *b, n: 1 },
+                            QGroup { class: vec![Rq::sn(c2, 0)], prio: *a, n: 1 },
+                        ],
+                        advance_s: 0,
+                    };
+                    if seen.insert(inst.text()) {
+                        all.push(("extreme-priorities".to_string(), inst));
+                        n += 1;
+                    }
+                }
+            }
+        }
+        fam_sizes.push(json!({"family": "extreme-priorities: two tasks with priorities from {MIN, MIN+1, -1, 0, 1, MAX-1, MAX} on a worker that can run only one", "instances": n}));
+    }
     // smallest first: fewer workers, fewer tasks, fewer groups
     all.sort_by_key(|(_, i)| (i.workers.len(), i.n_tasks(), i.queue.len(), i.text()));
     let insts: Vec<Instance> = all.iter().map(|(_, i)| i.clone()).collect();
